@@ -60,6 +60,7 @@ type Run struct {
 	lastTask int
 	post     []func()
 	inPost   bool
+	sutPanic func(site, value, stack string)
 }
 
 // AfterBubble registers work (typically a linearizability check of the
@@ -227,6 +228,50 @@ func (r *Run) Fail(clause, signature, format string, a ...interface{}) bool {
 	select {} //nolint
 }
 
+// OnSUTPanic installs the handler for panics that ended a goroutine of the
+// system under test (reported through simrt.Recover) or that a harness task
+// caught with Guard. Without a handler such a panic is a violation when
+// PanicIsViolation is set and harness trouble otherwise.
+func (r *Run) OnSUTPanic(f func(site, value, stack string)) { r.sutPanic = f }
+
+func (r *Run) handleSUTPanics() {
+	for _, p := range r.TakePanics() {
+		switch {
+		case r.sutPanic != nil:
+			r.sutPanic(p.Site, p.Value, p.Stack)
+		case r.taskPanicIsViolation:
+			r.Fail("panic", "panic", "a goroutine of the system under test panicked at %s: %s\n%s", p.Site, p.Value, p.Stack)
+		default:
+			panic(harnessTrouble(fmt.Sprintf("goroutine of the system under test panicked at %s: %s\n%s", p.Site, p.Value, p.Stack)))
+		}
+	}
+}
+
+// Guard runs fn and reports a panic of the code under test to the OnSUTPanic handler instead of ending the task.
+func (r *Run) Guard(site string, fn func()) (panicked bool) {
+	defer func() {
+		if e := recover(); e != nil {
+			if _, ok := e.(abortRun); ok {
+				panic(e)
+			}
+
+			panicked = true
+
+			if r.sutPanic != nil {
+				r.sutPanic(site, fmt.Sprint(e), string(debug.Stack()))
+
+				return
+			}
+
+			panic(e)
+		}
+	}()
+
+	fn()
+
+	return false
+}
+
 // PanicIsViolation makes a panic inside any harness task a violation with the
 // given clause (used where the property says "never a panic").
 func (r *Run) PanicIsViolation() { r.taskPanicIsViolation = true }
@@ -335,6 +380,8 @@ func (r *Run) Sched(o SchedOpts) {
 			panic(harnessTrouble(*p))
 		}
 
+		r.handleSUTPanics()
+
 		if o.Invariant != nil {
 			r.Try(o.Invariant)
 		}
@@ -437,6 +484,8 @@ func (r *Run) Do(name string, fn func()) {
 		if p := r.panicked.Load(); p != nil {
 			panic(harnessTrouble(*p))
 		}
+
+		r.handleSUTPanics()
 
 		if done {
 			return
@@ -556,6 +605,8 @@ func Execute(t synctestT, h *Harness, seed, idx uint64, tier string, tape *Tape,
 			if p := r.panicked.Load(); p != nil {
 				panic(harnessTrouble(*p))
 			}
+
+			r.handleSUTPanics()
 		})
 	}()
 
